@@ -136,8 +136,14 @@ fn member_event(ctx: &mut Ctx, k: usize, cats: &[&str], enum_field: bool) -> (Ve
         1 => {
             // the member's own map-category instruction: same kind as the repeated one, or a different kind / dedication
             // (the repeated instruction must still reach the kinds the own one does not cover - seed C14-02)
-            let (n, d, t) = [("map", Some("T"), "own"), ("from", Some("T"), "own-from"), ("into", Some("T"), "own-into"), ("from", None, "own-from-default")][ctx.choose(4)];
-            (vec![Instr::new(n, d, &format!("~ + {}", 300 + k))], t)
+            // ... or the member's own ghost that covers only one counterpart / only the owned kinds: everywhere else the
+            // member is still mapped and the repeated instructions must reach it (seed C14-09)
+            let (n, d, t) = [("map", Some("T"), "own"), ("from", Some("T"), "own-from"), ("into", Some("T"), "own-into"), ("from", None, "own-from-default"), ("ghost", Some("U"), "own-ghost-dedicated"), ("ghost_owned", None, "own-ghost-owned")][ctx.choose(6)];
+            if n.starts_with("ghost") {
+                (vec![Instr::new(n, d, &format!("{{ {} }}", 300 + k))], t)
+            } else {
+                (vec![Instr::new(n, d, &format!("~ + {}", 300 + k))], t)
+            }
         }
         2 => {
             let c = cats[ctx.choose(cats.len())];
@@ -412,7 +418,7 @@ pub fn check_case(space: &str, c: &Case, choices: &[u32], rep: &Report) {
 
 pub fn run(tier: &str) -> i32 {
     let rep = Report::new("C14", tier, "model_checking");
-    rep.set_rule("member level: every event sequence {plain, own instruction, repeat(cats) + every non-empty subset of {map, ghost, child, parent} payload instructions, skip_repeat + own, stop_repeat, stop_repeat + repeat(cats)} over struct member lists of length <= n (n = 4 quick, 5 thorough) with 7 category filters; enums: <= 3 variants x <= 3 fields, named and tuple, permeating and non-permeating filters, variant-level repeat / skip / stop events. Trait level: every sequence of <= n instructions over 2 names x 5 events x 7 category filters x own parameter subsets {vars, one of update / return / default case}, struct and enum hosts. The reference machine M_rep computes the written-out input; derive(with repeat) must be token-identical to derive(written out) with the same accept/reject decision. Conflicting sequences (second repeat without stop_repeat, parameter overridden) are pruned (they are C15's). states = distinct inputs; non-trivial = inputs in which M_rep actually copies something");
+    rep.set_rule("member level: every event sequence {plain, own instruction (mapping of the same / another kind or dedication, ghost dedicated to one counterpart, ghost_owned), repeat(cats) + every non-empty subset of {map, ghost, child, parent} payload instructions, skip_repeat + own, stop_repeat, stop_repeat + repeat(cats)} over struct member lists of length <= n (n = 4 quick, 5 thorough) with 7 category filters; enums: <= 3 variants x <= 3 fields, named and tuple, permeating and non-permeating filters, variant-level repeat / skip / stop events. Trait level: every sequence of <= n instructions over 2 names x 5 events x 7 category filters x own parameter subsets {vars, one of update / return / default case}, struct and enum hosts. The reference machine M_rep computes the written-out input; derive(with repeat) must be token-identical to derive(written out) with the same accept/reject decision. Conflicting sequences (second repeat without stop_repeat, parameter overridden) are pruned (they are C15's). states = distinct inputs; non-trivial = inputs in which M_rep actually copies something");
     rep.assume("M_rep is written from the C14 statement and README (Repeat member instructions / Permeating repeat / Repeat trait instruction params); token-level comparison, in-process expansion");
     let quick = tier == "quick";
     let caps = Caps::from_env(if quick { 150.0 } else { 1500.0 });
